@@ -570,6 +570,7 @@ def plan_C14(tier, seed):
         eot = [(y, 3660) for y in range(-1999, 3990, 250)]
         nrs, nrts, per = 16, 16, 1500
     sh = [Shard("season_%+05d" % a, drv_sun.gen_seasons, dict(y0=a, y1=b), *T) for (a, b) in blocks]
+    sh.append(Shard("season_far", drv_sun.gen_far_years, dict(), *T))
     sh += [Shard("eot_%+05d" % y, drv_sun.gen_eot, dict(y0=y, ndays=n), *T) for (y, n) in eot]
     sh += [Shard("riseset_%02d" % i, drv_sun.gen_riseset, dict(seed=seed, shard=i, n=per), *T) for i in range(nrs)]
     sh += [Shard("rts_%02d" % i, drv_sun.gen_rts, dict(seed=seed, shard=i, n=per * 3), *T) for i in range(nrts)]
